@@ -1215,6 +1215,8 @@ func (p *constructPlan) Execute(ctx context.Context) (*table.Table, error) {
 	// The buffered channel has capacity to accommodate twice the amount of triples stored in a single call.
 	tripChan := make(chan *triple.Triple, 2*p.bulkSize)
 	done := make(chan bool)
+	// Error reported by the store while writing; set by the writer goroutine before it signals done.
+	var writeErr error
 
 	go func() {
 		var ts []*triple.Triple
@@ -1243,12 +1245,16 @@ func (p *constructPlan) Execute(ctx context.Context) (*table.Table, error) {
 		for elem := range tripChan {
 			ts = append(ts, elem)
 			if len(ts) >= p.bulkSize {
-				update(ctx, ts, p.stm.OutputGraphNames(), p.store, updateFunc)
+				if err := update(ctx, ts, p.stm.OutputGraphNames(), p.store, updateFunc); err != nil {
+					writeErr = err
+				}
 				ts = []*triple.Triple{}
 			}
 		}
 		if len(ts) > 0 {
-			update(ctx, ts, p.stm.OutputGraphNames(), p.store, updateFunc)
+			if err := update(ctx, ts, p.stm.OutputGraphNames(), p.store, updateFunc); err != nil {
+				writeErr = err
+			}
 		}
 		done <- true
 	}()
@@ -1287,6 +1293,9 @@ func (p *constructPlan) Execute(ctx context.Context) (*table.Table, error) {
 	close(tripChan)
 	// Wait until all triples are added to the store.
 	<-done
+	if writeErr != nil {
+		return nil, writeErr
+	}
 	return tbl, nil
 }
 
